@@ -123,6 +123,17 @@ func (o *Oracle) CallPositions(src engine.Value, S, T types.Type, path []PElem, 
 			if fs != nil && (fs.Ignore || fs.Free) {
 				continue
 			}
+			if fs != nil && fs.Via != "" {
+				*out = append(*out, CallPos{Fn: fs.Via, Src: src, HasSrc: true, Path: fp})
+				if call := o.viaCall(fs.Via, src); call != nil && !call.Failed {
+					if fs.Fn != "" {
+						*out = append(*out, CallPos{Fn: fs.Fn, Src: call.Result, HasSrc: true, Path: fp})
+					} else {
+						o.CallPositions(call.Result, call.ResultType, tf.Type(), fp, out, depth+1)
+					}
+				}
+				continue
+			}
 			if fs != nil && fs.Fn != "" {
 				cp := CallPos{Fn: fs.Fn, Path: fp}
 				if !fs.FnNoSource {
